@@ -213,8 +213,10 @@ def rexport_expr(node, names, access_only=False):
     if isinstance(node, N.StructureReference):
         mid, idx = member_ref(node, names, ao)
         return [f"idx{len(idx)}", mid] + idx
-    if isinstance(node, N.CodeBlock) and ao:
-        return ["lit", 0]                      # CodeBlock.reference_accesses: nothing
+    if isinstance(node, N.CodeBlock):
+        # READWRITE accesses cannot be expressed inside a MiniF expression: the enclosing
+        # statement is exported as `opaque` (rexport_stmt); anywhere else: not supported
+        raise minif.Unsupported("expression CodeBlock outside an assignment")
     if isinstance(node, N.Range) and ao:
         out = ["lit", 0]
         for c in node.children:
@@ -264,26 +266,90 @@ def rexport_expr(node, names, access_only=False):
     return minif.export_expr(node, names)        # literals (and errors)
 
 
-def call_accesses(node, names):
-    """non-pure Call: every argument is READWRITE = READ then WRITE for all queries used"""
+def codeblock_acc(node, names):
+    """CodeBlock.reference_accesses at HEAD: READWRITE of every name, in get_symbol_names order"""
+    return [["rw", names.id(n.lower()), 1 if getattr(names, "rank", {}).get(n.lower(), 0) > 0 else 0]
+            for n in node.get_symbol_names()]
+
+
+def expr_acc(node, names):
+    """access entries of an expression that may contain CodeBlocks, in reference_accesses order"""
     from psyclone.psyir import nodes as N
-    out = []
+    if isinstance(node, N.CodeBlock):
+        return codeblock_acc(node, names)
+    if not node.walk(N.CodeBlock):
+        return [["rd", rexport_expr(node, names, True)]]
+    if isinstance(node, (N.BinaryOperation, N.UnaryOperation)):
+        return sum([expr_acc(c, names) for c in node.children], [])
+    if isinstance(node, N.IntrinsicCall) and node.intrinsic.name.upper() not in ("LBOUND", "UBOUND", "SIZE"):
+        return sum([expr_acc(c, names) for c in node.arguments], [])
+    raise minif.Unsupported("CodeBlock nested in " + type(node).__name__)
+
+
+def ref_target(arg, names):
+    """by-reference actual argument -> (variable id, arr flag, [index expressions])"""
+    from psyclone.psyir import nodes as N
+    if isinstance(arg, N.StructureReference):
+        mid, idx = member_ref(arg, names, True)
+        return mid, 1, idx, True
+    if isinstance(arg, N.ArrayReference):
+        return names.id(arg.name), 1, [rexport_expr(i, names, True) for i in arg.indices], True
+    x = names.id(arg.name)
+    rank = getattr(names, "rank", {}).get(arg.name.lower(), 0)
+    return x, (1 if rank > 0 else 0), [], False
+
+
+def inline_bump(node, names):
+    """the callee `bump(x, y, z)`: x(1) = x(2) + y ; y = y + z ; z = 3 with the actual arguments
+    substituted (x a whole rank-1 array, y a scalar variable, z a scalar variable or an element);
+    None if the call has another shape (then the region is not executed by the model)"""
+    from psyclone.psyir import nodes as N
+    if node.routine.name.lower() != "bump" or len(node.arguments) != 3:
+        return None
+    if not all(isinstance(a, N.Reference) for a in node.arguments):
+        return None
+    (x, xa, xi, xe), (y, ya, yi, ye), (z, za, zi, ze) = [ref_target(a, names) for a in node.arguments]
+    if xe or not xa or ya or ye or any(isinstance(i, N.Range) for a in node.arguments[2:] for i in getattr(a, "indices", [])):
+        return None
+    if ze and len(zi) != 1 or (not ze and za):
+        return None
+    yexpr = ["var", y]
+    zexpr = ["idx1", z, zi[0]] if ze else ["var", z]
+    zstore = ["store1", z, zi[0], ["lit", 3]] if ze else ["assign", z, ["lit", 3]]
+    return ["seqs", ["store1", x, ["lit", 1], ["bin", "add", ["idx1", x, ["lit", 2]], yexpr]],
+            ["assign", y, ["bin", "add", yexpr, zexpr]], zstore]
+
+
+def call_accesses(node, names):
+    """Call.reference_accesses of a non-pure call: every by-reference argument READWRITE, then the
+    READs of its subscripts; other arguments READ.  -> `opaque` statement (body = the callee with
+    the actuals substituted if it is the generator's `bump`, else skip)"""
+    from psyclone.psyir import nodes as N
+    acc = []
     for arg in node.arguments:
-        if isinstance(arg, N.StructureReference):
-            mid, idx = member_ref(arg, names, True)
-            out.append([f"store{len(idx)}", mid] + idx + [[f"idx{len(idx)}", mid] + idx])
-        elif isinstance(arg, N.ArrayReference):
-            idx = [rexport_expr(i, names, True) for i in arg.indices]
-            out.append([f"store{len(idx)}", names.id(arg.name)] + idx + [[f"idx{len(idx)}", names.id(arg.name)] + idx])
-        elif type(arg) is N.Reference:
-            x = names.id(arg.name)
-            if getattr(names, "rank", {}).get(arg.name.lower(), 0) > 0:
-                out.append(["store1", x, ["lit", 0], ["idx1", x, ["lit", 0]]])
-            else:
-                out.append(["assign", x, ["var", x]])
-        else:   # an expression argument is only read
-            out.append(["ite", rexport_expr(arg, names, True), ["skip"], ["skip"]])
-    return ["seqs"] + out
+        if isinstance(arg, N.Reference):
+            x, a, idx, _ = ref_target(arg, names)
+            acc.append(["rw", x, a])
+            acc += [["rd", i] for i in idx]
+        else:
+            acc += expr_acc(arg, names)
+    return ["opaque", acc, inline_bump(node, names) or ["skip"]]
+
+
+def assignment_with_codeblock(node, names):
+    """Assignment whose right-hand side contains an expression CodeBlock: RHS accesses, READs of
+    the LHS subscripts, WRITE of the LHS (the code itself is not modelled: body skip)"""
+    from psyclone.psyir import nodes as N
+    lhs = node.lhs
+    acc = expr_acc(node.rhs, names)
+    if isinstance(lhs, N.StructureReference):
+        mid, idx = member_ref(lhs, names, True)
+        return ["opaque", acc + [["rd", i] for i in idx] + [["wr", mid, 1]], ["skip"]]
+    if isinstance(lhs, N.ArrayReference):
+        idx = [rexport_expr(i, names, True) for i in lhs.indices]
+        return ["opaque", acc + [["rd", i] for i in idx] + [["wr", names.id(lhs.name), 1]], ["skip"]]
+    rank = getattr(names, "rank", {}).get(lhs.name.lower(), 0)
+    return ["opaque", acc + [["wr", names.id(lhs.name), 1 if rank > 0 else 0]], ["skip"]]
 
 
 def rexport_stmt(node, names, access_only=False):
@@ -304,9 +370,14 @@ def rexport_stmt(node, names, access_only=False):
                 rexport_expr(node.stop_expr, names, ao), rexport_expr(node.step_expr, names, ao),
                 rexport_stmt(node.loop_body, names, ao)]
     if isinstance(node, N.Call) and not isinstance(node, N.IntrinsicCall):
-        if not ao:
+        out = call_accesses(node, names)
+        if out[2] == ["skip"] and not ao:
             raise minif.Unsupported("call")
-        return call_accesses(node, names)
+        return out
+    if isinstance(node, N.Assignment) and node.walk(N.CodeBlock):
+        if not ao:
+            raise minif.Unsupported("expression CodeBlock")
+        return assignment_with_codeblock(node, names)
     if isinstance(node, N.Assignment):
         lhs, rhs = node.lhs, rexport_expr(node.rhs, names, ao)
         if isinstance(lhs, N.StructureReference):
@@ -325,7 +396,7 @@ def rexport_stmt(node, names, access_only=False):
             return ["assign", names.id(lhs.name), rhs]
         raise minif.Unsupported("lhs")
     if isinstance(node, N.CodeBlock) and ao:
-        return ["skip"]                        # statement CodeBlock: no accesses recorded
+        return ["opaque", codeblock_acc(node, names), ["skip"]]     # statement CodeBlock
     return minif.export_stmt(node, names)
 
 
@@ -529,6 +600,10 @@ def item_sexps(parsed, nodes):
     return items
 
 
+def executable_call(parsed, call):
+    return inline_bump(call, parsed.names) is not None
+
+
 def call_argument_vars(parsed, nodes):
     """ids of the variables that are arguments of non-intrinsic calls in the region (they get
     a READWRITE access)"""
@@ -549,29 +624,34 @@ def has_codeblock(nodes):
     return any(n.walk(CodeBlock) for n in nodes)
 
 
-def non_minif(nodes):
-    """the region contains something the MiniF interpreter cannot execute: a CodeBlock or a
-    call to a routine of unknown intent (evaluated with the gfortran replay oracle instead)"""
+def non_minif(nodes, names=None):
+    """the region contains something the model cannot execute: a CodeBlock, or a call other than
+    the generator's `bump` (whose body is inlined into the `opaque` statement) — evaluated with
+    the gfortran replay oracle instead"""
     from psyclone.psyir.nodes import CodeBlock, Call, IntrinsicCall
-    return any(c for n in nodes for c in n.walk((CodeBlock, Call)) if not isinstance(c, IntrinsicCall))
+    for n in nodes:
+        for c in n.walk((CodeBlock, Call)):
+            if isinstance(c, IntrinsicCall):
+                continue
+            if isinstance(c, CodeBlock) or names is None or inline_bump(c, names) is None:
+                return True
+    return False
 
 
 def access_items(parsed, nodes):
-    """model items for the ACCESS model of a region that contains CodeBlocks: a top-level
-    statement CodeBlock (or Return) is `(x)`; every other statement is exported with the
-    accesses PSyclone can see (expression CodeBlocks -> literal); `excluded` tells whether
-    some item contains a CodeBlock/Return anywhere (ExtractTrans / ACCDataTrans refuse)"""
+    """model items for the ACCESS model of a region that contains CodeBlocks / calls: a node that
+    is or contains a CodeBlock / Return is an excluded item `(x <stmt>)` (ExtractTrans / ACCDataTrans
+    refuse) whose statement carries the accesses PSyclone records (CodeBlock: READWRITE of its
+    names); every other statement is `(s <stmt>)`"""
     from psyclone.psyir.nodes import CodeBlock, Return
-    items, excluded = [], False
+    items = []
     for n in nodes:
-        if n.walk((CodeBlock, Return)):
-            excluded = True
-        if isinstance(n, (CodeBlock, Return)):
+        if isinstance(n, Return):
             items.append(["x"])
+        elif n.walk((CodeBlock, Return)):
+            items.append(["x", rexport_stmt(n, parsed.names, access_only=True)])
         else:
             items.append(["s", rexport_stmt(n, parsed.names, access_only=True)])
-    if excluded and not any(it == ["x"] for it in items):
-        items.append(["x"])                    # nested excluded node: keep the refusal, no accesses
     return items
 
 
